@@ -29,15 +29,22 @@ Apply(e, x) ==
     [] e.act = "load" -> Loaded(x)
     [] e.act = "load-model" -> LoadedModel(x)
 
-VARIABLES l, phase, bad
-tvars == <<w, o, l, phase, bad>>
-Init == l = 1 /\ phase = "world" /\ bad = <<>> /\ w = [fs |-> [d \in Dirs |-> {}], dotenv |-> <<"none", "none", "none", "none">>, os |-> EnvOf(<<>>), configs |-> <<>>] /\ o = 0
+\* o: the options value the specification reaches by itself from the start of the current sequence (a line with first = TRUE starts
+\* one); bad: lines whose step the specification maps elsewhere; bad2: final lines (load / load-model) whose outcome differs from
+\* the one the specification reaches over the whole sequence, whatever the intermediate values were
+VARIABLES l, phase, bad, bad2
+tvars == <<w, o, l, phase, bad, bad2>>
+Init == l = 1 /\ phase = "world" /\ bad = <<>> /\ bad2 = <<>> /\ w = [fs |-> [d \in Dirs |-> {}], dotenv |-> <<"none", "none", "none", "none">>, os |-> EnvOf(<<>>), configs |-> <<>>] /\ o = Error
 Next ==
   /\ l <= Len(Trace)
-  /\ \/ /\ phase = "world" /\ w' = WOf(Trace[l].w) /\ phase' = "judge" /\ UNCHANGED <<o, l, bad>>
-     \/ /\ phase = "judge" /\ phase' = "world" /\ l' = l + 1 /\ UNCHANGED <<w, o>>
-        /\ LET e == Trace[l]  exp == Apply(e, OOf(e.from)) IN
-           bad' = IF exp # OOf(e.to) /\ Len(bad) < 200 THEN Append(bad, <<l, exp>>) ELSE bad
+  /\ \/ /\ phase = "world" /\ w' = WOf(Trace[l].w) /\ phase' = "judge" /\ UNCHANGED <<o, l, bad, bad2>>
+     \/ /\ phase = "judge" /\ phase' = "world" /\ l' = l + 1 /\ UNCHANGED w
+        /\ LET e == Trace[l]  exp == Apply(e, OOf(e.from))
+               start == IF e.first THEN OOf(e.from) ELSE o
+               own == IF IsErr(start) THEN Error ELSE Apply(e, start) IN
+           /\ bad' = IF exp # OOf(e.to) /\ Len(bad) < 200 THEN Append(bad, <<l, exp>>) ELSE bad
+           /\ o' = own
+           /\ bad2' = IF e.act \in {"load", "load-model"} /\ own # OOf(e.to) /\ Len(bad2) < 200 THEN Append(bad2, <<l, own>>) ELSE bad2
 Spec == Init /\ [][Next]_tvars
-Report == l <= Len(Trace) \/ PrintT(<<"VERDICTS", l - 1, bad>>)
+Report == l <= Len(Trace) \/ PrintT(<<"VERDICTS", l - 1, bad, bad2>>)
 =============================================================================
